@@ -32,6 +32,8 @@ pub struct Stats {
     pub faulted_invocations: u64,
     pub faulted_reaching_writer: u64,
     pub max_tasks: usize,
+    #[serde(default)]
+    pub max_steps: usize,
     pub oracle_checks: BTreeMap<String, u64>,
 }
 
@@ -86,6 +88,7 @@ impl Stats {
         self.faulted_invocations += o.faulted_invocations;
         self.faulted_reaching_writer += o.faulted_reaching_writer;
         self.max_tasks = self.max_tasks.max(o.max_tasks);
+        self.max_steps = self.max_steps.max(o.max_steps);
     }
 
     pub fn check(&mut self, name: &str) {
@@ -127,6 +130,7 @@ impl Stats {
         }
         self.pipe_states.extend(o.pipe_states.iter().cloned());
         self.max_tasks = self.max_tasks.max(o.max_tasks);
+        self.max_steps = self.max_steps.max(o.steps);
         let mut sd = fnv(b"sched");
         for s in &o.schedule {
             sd = fnv_more(sd, &s.to_le_bytes());
